@@ -126,6 +126,25 @@ CHECKS.update({
         "restarts; HH:MM values inside a DST gap or repeated hour are not explored",
    tech="TLA+ model checking + behaviour replay + TLC trace validation of real executions"),
 })
+CHECKS.update({
+ "C04": dict(engine="tlc+h_codec", cat=MC, ref="4 C04",
+   text="TLC checks Reserved=Written=Consumed, CacheIndexInBounds, CacheReadsMatchPushes and Snapshot on Codec.tla (three codec passes per type tree, "
+        "per-thread size cache + clear rule, header, dynamic level, mutation after call) exhaustively for bounded pools with widths measured on the "
+        "code, exports the behaviours; each is compiled into C++ (gen_codec.py), executed through the real macros/queue/manual backend and the "
+        "recorded execution validated by TLC against the contract (TraceCodec.tla)",
+   note="TLC decides the size/cache/snapshot protocol (<=2 statements/thread, <=3 args, node depth <=2 quick / <=3 thorough over reduced alphabets) and "
+        "generates the cases; text equality per concrete value is a differential oracle (call-site fmtquill::format) evaluated in the replay harness "
+        "and judged in the trace spec, not a model-checking result; ~250/3300 sampled cases, seeded boundary values; 1 known finding (unordered order)",
+   tech="TLA+ model checking + TLC-generated cases compiled to C++ + TLC trace validation of real executions"),
+ "C11": dict(engine="tlc+h_codec", cat=MC, ref="4 C11",
+   text="every recorded log call of the generated case set (interposed malloc family and mmap per thread, user formatters recording their thread) is "
+        "validated by TLC against the HotPath automaton: no Alloc/Mmap on the caller inside a steady, fitting call of a covered class; deferred "
+        "formatters only on the backend, direct ones only on the caller",
+   note="trace validation against a thin automaton only: the states/transitions are those of the trace spec, there is no design-level exploration; "
+        "allocation behaviour is observed, not modelled; observes only the generated cases (782 calls quick / 10,106 thorough); cases come from "
+        "TLC's Codec.tla export; -O1 glibc",
+   tech="TLC trace validation of allocator/formatter event traces"),
+})
 PENDING = "check under construction in this round (not yet claimed)"
 
 man = {"version": 1, "setup_cmd": "cd /verif && ./setup.sh",
@@ -143,6 +162,7 @@ man = {"version": 1, "setup_cmd": "cd /verif && ./setup.sh",
            {"name": "h_named", "path": "/verif/harness/h_named.cpp", "serves_properties": ["C19"], "kind_free_text": "real named-args scanner and end-to-end JSON sink runs"},
            {"name": "h_life", "path": "/verif/harness/h_life.cpp", "serves_properties": ["C07"], "kind_free_text": "forked children running the real backend thread, FileSink and signals"},
            {"name": "h_rot", "path": "/verif/harness/h_rot.cpp", "serves_properties": ["C14", "C15"], "kind_free_text": "real RotatingFileSink driven by scripts in a scratch directory, directory listing after every op"},
+           {"name": "h_codec", "path": "/verif/harness/codec/rt_codec.cpp", "serves_properties": ["C04", "C11"], "kind_free_text": "generated C++ cases through the real macros/queue/manual backend with interposed allocator"},
            {"name": "h_spsc", "path": "/verif/harness/h_spsc.cpp", "serves_properties": [p for p in sorted(CHECKS) if "h_spsc" in CHECKS[p]["engine"]],
             "kind_free_text": "real SPSC queues executed on a shim std::atomic implementing the spec's release/acquire model, with payload race detector"}],
        "checks": [], "not_applicable": [],
